@@ -176,6 +176,68 @@ def outside_assignment_case(col, rng):
     col.add({"sig": "native::totals::assigned_outside_a_model", "what": bad, "input": {"sequence": ["construct", "assign", "build", "pop", "assign", "build"]}} if bad else None)
 
 
+def literal_hyperparameter_case(col, rng):
+    """hyper-parameters given as plain literals live in anonymous Value nodes of the model: after assigning to such a node the totals are the joint
+    density under the CURRENT hyper-parameters (direct TFP reference)"""
+    y_np = rng.normal(size=3).astype(np.float32)
+    dmu = lsl.Dist(tfd.Normal, loc=0.0, scale=1.0)
+    mu = lsl.param(np.float32(1.0), dmu, name="mu")
+    dy = lsl.Dist(tfd.Normal, loc=mu, scale=0.5)
+    y = lsl.obs(y_np, dy, name="y")
+    model = lsl.GraphBuilder().add(y).build_model()
+
+    def ref(m, s_mu, s_y):
+        prior = float(tfd.Normal(0.0, np.float32(s_mu)).log_prob(np.float32(m)))
+        lik = float(jnp.sum(tfd.Normal(np.float32(m), np.float32(s_y)).log_prob(y_np)))
+        return prior, lik, prior + lik
+
+    bad = None
+    got = (float(model.log_prior), float(model.log_lik), float(model.log_prob))
+    if not np.allclose(got, ref(1.0, 1.0, 0.5), rtol=1e-4, atol=1e-3):
+        bad = f"as built: {got} vs {ref(1.0, 1.0, 0.5)}"
+    if bad is None:
+        model.nodes[dmu.kwinputs["scale"].name].value = np.float32(10.0)
+        model.nodes[dy.kwinputs["scale"].name].value = np.float32(2.0)
+        got = (float(model.log_prior), float(model.log_lik), float(model.log_prob))
+        if not np.allclose(got, ref(1.0, 10.0, 2.0), rtol=1e-4, atol=1e-3):
+            bad = f"prior scale node set to 10, likelihood scale node set to 2: (log_prior, log_lik, log_prob) = {got}, joint density under the current hyper-parameters {ref(1.0, 10.0, 2.0)}"
+    if bad is None:
+        st = model.state
+        st[dmu.kwinputs["scale"].name] = type(st[dmu.kwinputs["scale"].name])(np.float32(3.0), False)
+        model.auto_update = False
+        model.state = st
+        for n_ in model.nodes.values():
+            if n_.name in ("mu_log_prob",):
+                n_.flag_outdated() if hasattr(n_, "flag_outdated") else None
+        model.update()
+        got = float(model.log_prior)
+        if not np.isclose(got, ref(1.0, 3.0, 2.0)[0], rtol=1e-4, atol=1e-3):
+            bad = f"prior scale restored as 3 through model.state, mu_log_prob flagged and updated: log_prior = {got}, expected {ref(1.0, 3.0, 2.0)[0]}"
+    col.add({"sig": "native::totals::literal_hyperparameter_reassigned", "what": bad, "input": {"nodes": "anonymous Value nodes of literal scale parameters"}} if bad else None)
+
+
+def bare_dist_case(col, rng):
+    """a distribution node that belongs to NO variable (a soft constraint evaluated at a function of mu, evaluation point set by hand): it is one of the model's
+    distribution nodes, so log_prob includes it (direct TFP reference); log_lik / log_prior do not"""
+    y_np = rng.normal(size=3).astype(np.float32)
+    mu = lsl.param(np.float32(0.4), lsl.Dist(tfd.Normal, loc=0.0, scale=3.0), name="mu")
+    y = lsl.obs(y_np, lsl.Dist(tfd.Normal, loc=mu, scale=1.0), name="y")
+    pen = lsl.Dist(tfd.Normal, loc=0.0, scale=0.1, _name="mu_sum_constraint")
+    pen.at = lsl.Calc(lambda m: m * 3.0, mu, _name="three_mu")
+    model = lsl.GraphBuilder().add(y, pen).build_model()
+    bad = None
+    for v in (0.4, -1.2):
+        model.vars["mu"].value = np.float32(v)
+        prior = float(tfd.Normal(0.0, 3.0).log_prob(np.float32(v)))
+        lik = float(jnp.sum(tfd.Normal(np.float32(v), 1.0).log_prob(y_np)))
+        penalty = float(tfd.Normal(0.0, 0.1).log_prob(np.float32(3.0 * v)))
+        got = (float(model.log_prior), float(model.log_lik), float(model.log_prob))
+        if not np.allclose(got, (prior, lik, prior + lik + penalty), rtol=1e-4, atol=1e-3):
+            bad = f"mu = {v}: (log_prior, log_lik, log_prob) = {got}; sum over all distribution nodes gives log_prob = {prior + lik + penalty} (penalty node {penalty})"
+            break
+    col.add({"sig": "native::totals::bare_distribution_node", "what": bad, "input": {"node": "Dist without variable, at = Calc(3 mu)"}} if bad else None)
+
+
 def repeated_build_case(col, rng):
     """one builder with user-supplied total nodes, built three times (copy=True, copy=True, copy=False): every model forwards the user nodes"""
     mu = lsl.param(np.float32(rng.normal()), lsl.Dist(tfd.Normal, loc=0.0, scale=2.0), name="mu")
@@ -212,6 +274,14 @@ def bounded(tier, seed):
     except Exception as e:
         col.add({"sig": f"native::totals::exception::{type(e).__name__}", "what": str(e)[:200], "input": {"scenario": "named update, weak variable with distribution"}})
     try:
+        bare_dist_case(col, rng)
+    except Exception as e:
+        col.add({"sig": f"native::totals::exception::{type(e).__name__}", "what": str(e)[:200], "input": {"scenario": "bare distribution node"}})
+    try:
+        literal_hyperparameter_case(col, rng)
+    except Exception as e:
+        col.add({"sig": f"native::totals::exception::{type(e).__name__}", "what": str(e)[:200], "input": {"scenario": "literal hyper-parameter reassigned"}})
+    try:
         outside_assignment_case(col, rng)
     except Exception as e:
         col.add({"sig": f"native::totals::exception::{type(e).__name__}", "what": str(e)[:200], "input": {"scenario": "values assigned outside a model"}})
@@ -239,5 +309,5 @@ def bounded(tier, seed):
             "rule": (CORE_RULE + "; " + f"BOUNDED: hierarchical model family (InverseGamma variance with/without auto-transform, Normal mean, degenerate-MVN coefficient prior via from_penalty, weak linear "
                      f"predictor, vector Normal response stored per observation or summed, an unflagged distributed variable, optional user log-lik node) x {reps} seeded value draws, each "
                      "checked after build and after re-assigning values: log_prob / log_lik / log_prior against direct TFP evaluation; one DistRegBuilder model (flags exactly-one, "
-                     f"prob = lik + prior = sum of distribution nodes); values assigned while the graph is outside a model (before build, after pop_nodes_and_vars) then built. seed={seed}"),
+                     f"prob = lik + prior = sum of distribution nodes); values assigned while the graph is outside a model (before build, after pop_nodes_and_vars) then built; literal hyper-parameters re-assigned through their anonymous Value nodes; a distribution node that belongs to no variable. seed={seed}"),
             "samples": [{"per_obs": False, "auto_transform": True, "user_lik_node": False}], "exhaustive": False, "violations": col.violations}
